@@ -27,6 +27,9 @@ RULE_KINDS = {
     'rebind_iflet': (['q(x) <-- e(x, y), z(w), if let Some(y) = Some(w);'], ['q(x) <-- e(x, y), z(w), if let Some(_v) = Some(w);'], 'shadows another variable'),
     'rebind_for_first': (['q(x) <-- for x in 0..3, let x = 4;'], ['q(x) <-- for x in 0..3, let _w = 4;'], 'shadows another variable'),
     'attr_on_rule': (['#[inline] q(x) <-- e(x, _);'], ['q(x) <-- e(x, _);'], 'unexpected attribute'),
+    'head_unbound_var': (['q(y) <-- e(x, _);'], ['q(x) <-- e(x, _);'], 'cannot find value `y` in this scope'),
+    'head_wildcard': (['q(_) <-- e(_, _);'], ['q(1) <-- e(_, _);'], '`_` can only be used on the left-hand side'),
+    'undefined_macro': (['q(x) <-- nomac!(x);'], ['q(x) <-- z(x);'], 'undefined macro'),
 }
 # cycles: every order of the rules of the cycle (the stratification check must not depend on rule order)
 CYC2 = (['a1(x) <-- e(x, _), !a2(x);', 'a2(x) <-- a1(x);'], ['a1(x) <-- e(x, _), !z(x);', 'a2(x) <-- a1(x);'])
@@ -90,6 +93,13 @@ def main():
             program(m, [], BASE_DECLS, ['macro hh($x: expr) { q($x), hh!($x) }'], BASE_RULES + ['hh!(x) <-- e(x, _);']),
             program(m, [], BASE_DECLS, ['macro hh($x: expr) { q($x), z($x) }'], BASE_RULES + ['hh!(x) <-- e(x, _);']),
             'recursively defined Ascent macro')
+        add('macro_missing_args', 'x', m,
+            program(m, [], BASE_DECLS, ['macro mm($a: expr, $b: expr) { e($a, $b) }'], BASE_RULES + ['q(x) <-- mm!(x);']),
+            program(m, [], BASE_DECLS, ['macro mm($a: expr, $b: expr) { e($a, $b) }'], BASE_RULES + ['q(x) <-- mm!(x, _y);']),
+            'expected more arguments')
+        add('attr_with_args', 'x', m,
+            program(m, ['#![measure_rule_times(3)]'], BASE_DECLS, [], BASE_RULES),
+            program(m, ['#![measure_rule_times]'], BASE_DECLS, [], BASE_RULES), 'unexpected token in attribute')
         add('attr_on_macro', 'x', m,
             program(m, [], BASE_DECLS, ['#[inline] macro mm($x: expr) { e($x, y), z(y) }'], BASE_RULES + ['q(x) <-- mm!(x);']),
             program(m, [], BASE_DECLS, ['macro mm($x: expr) { e($x, y), z(y) }'], BASE_RULES + ['q(x) <-- mm!(x);']),
@@ -100,6 +110,10 @@ def main():
                 program(m, [], place(BASE_DECLS, ['#[ds(::ascent::rel)] lattice l(i32, i32);'], pos), [], BASE_RULES),
                 program(m, [], place(BASE_DECLS, ['lattice l(i32, i32);'], pos), [], BASE_RULES),
                 '`lattice`s cannot have custom data structure providers')
+            add('empty_lattice', 'pos%d' % pos, m,
+                program(m, [], place(BASE_DECLS, ['lattice l0();'], pos), [], BASE_RULES),
+                program(m, [], place(BASE_DECLS, ['lattice l0(i32);'], pos), [], BASE_RULES),
+                'empty lattice is not allowed')
             add('two_ds', 'pos%d' % pos, m,
                 program(m, [], place(BASE_DECLS, ['#[ds(::ascent::rel)] #[ds(::ascent::rel)] relation r2(i32);'], pos), [], BASE_RULES),
                 program(m, [], place(BASE_DECLS, ['#[ds(::ascent::rel)] relation r2(i32);'], pos), [], BASE_RULES),
